@@ -10,6 +10,7 @@
 From stdpp Require Import gmap.
 From Coq Require Import NArith.
 From RV Require Import Ingress.IngressModel Rib.RibModel Bmp.BmpModel Bmp.BmpStreamModel Bmp.BmpStreamProofs.
+From RV Require Import Bmp.BmpPageModel Bmp.BmpPageProofs.
 Local Open Scope N_scope.
 
 (* No stream of read events makes the connection task panic. *)
@@ -82,3 +83,51 @@ Example C06_example :
   exists s, run_stream parse_w true TEof 1 evs =
     Done (EndErr KConnectionReset) [EByte 7] s [GUpd (UWithdrawBulk [3]); GEos 2].
 Proof. vm_compute. eexists. reflexivity. Qed.
+
+(* ---- the HTTP API keeps working: the router's page after any stream ----
+   Model: Bmp/BmpPageModel.v. [ring_of d h] is ParseErrorsRingBuffer after the
+   pushes of the history [h] (a Vec and the index of the next slot, as in
+   metrics.rs); [ring_shown] is what router_info/response.rs lists of get()'s
+   answer, None = get() panics (split_at past the end of the Vec). *)
+
+(* For EVERY history of parse errors get() returns, the page lists at most
+   MAX_RECENT_PARSE_ERRORS = 10 of them, they are the most recent ones in the
+   order of arrival, and all of them while there are no more than 10. *)
+Theorem C06_parse_errors_get_total : forall (A : Type) (d : A) (h : list A),
+  exists l, ring_shown (ring_of d h) = Some l /\ (length l <= ring_max)%nat /\
+            (exists older, h = older ++ l) /\ ((length h <= ring_max)%nat -> l = h).
+Proof. exact @ring_page_total. Qed.
+Print Assumptions C06_parse_errors_get_total.
+
+(* exactly: the last 10 entries of the history, oldest first *)
+Theorem C06_parse_errors_shown_exact : forall (A : Type) (d : A) (h : list A),
+  ring_shown (ring_of d h) = Some (last_n ring_max h).
+Proof. exact @ring_shown_exact. Qed.
+Print Assumptions C06_parse_errors_shown_exact.
+
+(* That needs the discipline push keeps (the index stays inside the Vec): a
+   buffer of ten entries whose index ran on to 11 makes get() panic. *)
+Theorem C06_parse_errors_get_needs_index_in_range :
+  ring_get (MkRing (replicate 10%nat 0) 11%nat) = None.
+Proof. exact ring_get_index_past_end. Qed.
+Print Assumptions C06_parse_errors_get_needs_index_in_range.
+
+(* An HTTP client that asks for the router's page after the connection handed
+   out any k read events of any script, under any parser and from any session
+   state, is either too late (the session ended within those events) or gets a
+   page listing at most 10 parse errors - the request handler never panics. *)
+Theorem C06_router_page_after_any_stream : forall parse rid evs k s0,
+  page_at parse rid evs k s0 = None \/
+  exists l, page_at parse rid evs k s0 = Some (Some l) /\ (length l <= ring_max)%nat.
+Proof. exact page_at_shape. Qed.
+Print Assumptions C06_router_page_after_any_stream.
+
+Theorem C06_router_page_never_panics : forall parse rid evs k s0,
+  page_at parse rid evs k s0 <> Some None.
+Proof. exact page_at_never_panics. Qed.
+Print Assumptions C06_router_page_never_panics.
+
+(* non-vacuity: twelve parse errors; the page lists the 3rd to the 12th *)
+Example C06_page_example :
+  ring_shown (ring_of 0 [1;2;3;4;5;6;7;8;9;10;11;12]) = Some [3;4;5;6;7;8;9;10;11;12].
+Proof. vm_compute. reflexivity. Qed.
